@@ -8,7 +8,7 @@ CHECKS=${*:-$ID}
 SRC=/tmp/seedout-$ID; [ -d "$SRC" ] || SRC=/verif/seeded/$ID
 export GOFLAGS=-mod=mod GOPROXY=off GOSUMDB=off GOTOOLCHAIN=local
 W=/tmp/seedchk-$ID-$$
-git -C /repo worktree add -q --detach "$W" HEAD || exit 3
+git -C /repo worktree add -q --detach "$W" "${SEED_BASE:-HEAD}" || exit 3
 trap 'git -C /repo worktree remove --force "$W" >/dev/null 2>&1; rm -rf /verif/bin/*-$(echo "$W" | md5sum | cut -c1-8)*' EXIT
 cd "$W"
 for f in "$SRC"/*_test.go "$SRC"/demo/*; do [ -f "$f" ] || continue
